@@ -449,7 +449,7 @@ func init() { register(c10.key(), c10.Oracle) }
 
 func TestC10(t *testing.T) {
 	c := c10
-	c.Checks = n(25, 150)
+	c.Checks = n(25, 60) // every case is a whole stream cut at every offset in four ways under three option sets
 	c.Run(t)
 	r := c10Res
 	r.Checks = n(40, 600)
